@@ -1,6 +1,7 @@
 import Clikit.Drv.Util
 import Clikit.Model.Section
 import Clikit.Model.SectionIndent
+import Clikit.Model.SectionGate
 namespace Clikit.Drv.C15
 open Lean Clikit.Drv Clikit.Term Clikit.Section
 
@@ -33,6 +34,44 @@ def parseIOp (j : Json) : R IOp := do
   | "indent" => return .indent (← fNat j "i") (← fNat j "n")
   | _ => return .op (← parseOp j)
 
+/-- an operation of a history with the gate (`Model/SectionGate.lean`): `create` may carry `quiet` /
+`verbosity` (what the section inherits from its output), `write` may carry `flags` (a flag word or null),
+`{"op": "verbosity", "i", "v"}` / `{"op": "quiet", "i", "q"}` are the section's own setters -/
+def parseGOp (j : Json) : R GOp := do
+  match (← fStr j "op") with
+  | "create" =>
+    let n ← match fOpt j "indent" with
+      | none => pure 0
+      | some _ => fNat j "indent"
+    let q ← match fOpt j "quiet" with
+      | none => pure false
+      | some _ => fBool j "quiet"
+    let v ← match fOpt j "verbosity" with
+      | none => pure 0
+      | some _ => fNat j "verbosity"
+    return .create n q v
+  | "indent" => return .indent (← fNat j "i") (← fNat j "n")
+  | "verbosity" => return .verbosity (← fNat j "i") (← fNat j "v")
+  | "quiet" => return .quiet (← fNat j "i") (← fBool j "q")
+  | "write" =>
+    match fOpt j "flags" with
+    | none => return .op (← parseOp j)
+    | some _ => return .write (← fNat j "i") (← parseLines j) (← fOptNat j "flags")
+  | _ =>
+    match (← parseOp j) with
+    | .create => throw "create: not an operation on a section"
+    | o => return .op o
+
+/-- every setter and every write names a section created before -/
+def validG : Nat → List GOp → Bool
+  | _, [] => true
+  | k, .create _ _ _ :: r => validG (k + 1) r
+  | k, .indent i _ :: r => decide (i < k) && validG k r
+  | k, .verbosity i _ :: r => decide (i < k) && validG k r
+  | k, .quiet i _ :: r => decide (i < k) && validG k r
+  | k, .write i _ _ :: r => decide (i < k) && validG k r
+  | k, .op o :: r => decide (target o < k) && validG k r
+
 /-- every `indent` names a section created before -/
 def validIndents : Nat → List IOp → Bool
   | _, [] => true
@@ -53,6 +92,9 @@ the command list back; `wf` / `anchored`: the deciders of the hypotheses of the 
 (`Props.C15.wf_decides`) on this history and on the screen the `pre` lines leave behind.
 Operations may carry indentation (`parseIOp`, model `SectionIndent`): `sim_state` / `sim_stream` whether the base model on the indented history
 (`flat`) gives the same sections / the same stream (`indent_simulates`).
+Operations may carry the gate (`parseGOp`, model `SectionGate`): `calm` whether the history is calm, `gate_state` /
+`gate_stream` whether - when it is - the indented history without the suppressed calls (`gflat`) gives the same
+sections / the same stream (`gate_simulates`); `sim_*` and `wf` then speak about that indented history.
 `c15.term {width, bytes}` -> the byte stream lexed and interpreted on an empty screen. -/
 def handle (m : String) (j : Json) : Option (R Json) :=
   match m with
@@ -62,17 +104,23 @@ def handle (m : String) (j : Json) : Option (R Json) :=
       let ansi ← fBool j "ansi"
       let pre ← (← fArr j "pre").toList.mapM asChars
       if !(pre.all lineOk) then throw "pre: a line contains a newline"
-      let iops ← (← fArr j "ops").toList.mapM parseIOp
+      let gops ← (← fArr j "ops").toList.mapM parseGOp
+      if !(validG 0 gops) then throw "ops: index of a section that does not exist"
+      -- the indented history the gated one amounts to (`Props.C15.gate_simulates`); without flags, quiet: itself
+      let iops := gflat [] gops
       -- the base history the indented one simulates (`Props.C15.indent_simulates`); without indentation: itself
       let ops := flat [] iops
       if !(validOps 0 ops && validIndents 0 iops) then throw "ops: index of a section that does not exist"
       let st0 : IState := { secs := [], ind := [] }
-      let tr := traceI ansi w st0 iops
+      let g0 : GState := { st := st0, cfg := [] }
+      let tr := traceG ansi w g0 gops
+      let finG := runG ansi w g0 gops
+      let calm := calmG ansi w g0 gops
       let cmds := tr.flatMap (·.1)
       let scr0 := execs w { rows := [], cur := 0 } (pre.map .print)
       let scr := execs w scr0 cmds
       let finI := runI ansi w st0 iops
-      let fin := (finI.1.secs, finI.2)
+      let fin := (finG.1.st.secs, finG.2)
       let base := run ansi w [] ops
       return Json.mkObj [
         ("steps", jList (fun (p : List Cmd × List Sec) =>
@@ -81,8 +129,11 @@ def handle (m : String) (j : Json) : Option (R Json) :=
         ("lex", .bool (lex (emit cmds) == some cmds)),
         ("run_agrees", .bool (fin.2 == cmds && some fin.1 == (tr.getLast?.map (·.2)).orElse (fun _ => some []))),
         ("wf", .bool (wfB w ops)),
-        ("sim_state", .bool (base.1 == fin.1)),
-        ("sim_stream", .bool (base.2 == fin.2)),
+        ("sim_state", .bool (base.1 == finI.1.secs)),
+        ("sim_stream", .bool (base.2 == finI.2)),
+        ("calm", .bool calm),
+        ("gate_state", .bool (!calm || finG.1.st == finI.1)),
+        ("gate_stream", .bool (!calm || finG.2 == finI.2)),
         ("anchored", .bool (anchoredB scr0)),
         ("stream", jStr (emit fin.2))]
   | "c15.term" => some do
